@@ -266,6 +266,8 @@ def build_query(identifier, session, query=None):
                 pass
             elif vr in ["DA", "TM", "DT"] and "-" in val:
                 pass
+            elif vr == "UI" and elem.VM > 1:
+                pass
             else:
                 # print('Performing single value matching...')
                 query = _search_single_value(elem, session, query)
@@ -668,13 +670,17 @@ def _search_wildcard(elem, session, query=None):
     if value is None or value == "":
         value = "*"
 
+    # Only '*' and '?' are wild cards, '%' and '_' are literal characters
+    for char in ("\\", "%", "_"):
+        value = value.replace(char, "\\" + char)
+
     value = value.replace("*", "%")
     value = value.replace("?", "_")
 
     if not query:
         query = session.query(Instance)
 
-    return query.filter(attr.like(value))
+    return query.filter(attr.like(value, escape="\\"))
 
 
 # Database table setup stuff
